@@ -124,6 +124,41 @@ impl MioListener {
 // ===================================================================== server.rs: signals -> commands
 #[derive(Clone, Copy)]
 //@extract_type file=actix-server/src/signals.rs item="enum SignalKind"
+/// actix_rt::signal::unix::Signal (tokio): a stream of deliveries of one OS signal.  PROPHECY name `ready_now()`: whether
+/// a delivery is pending at the (one) poll made during the verified call.
+#[verifier::external_body]
+pub struct UnixSignal { _p: () }
+impl UnixSignal {
+    pub uninterp spec fn ready_now(&self) -> bool;
+    #[verifier::external_body]
+    pub fn poll_recv(&mut self, cx: &mut Context<'_>) -> (r: Poll<Option<()>>)
+        ensures (r is Ready) == old(self).ready_now(), final(self).ready_now() == old(self).ready_now(),
+    { unimplemented!() }
+}
+pub assume_specification<T>[ Poll::<T>::is_ready ](p: &Poll<T>) -> (r: bool)
+    ensures r == (p is Ready);
+pub assume_specification<T>[ Poll::<T>::is_pending ](p: &Poll<T>) -> (r: bool)
+    ensures r == (p is Pending);
+/// signals.rs Signals (Linux form: one stream per handled signal kind)
+pub struct Signals { pub signals: Vec<(SignalKind, UnixSignal)> }
+impl Signals {
+//@extract file=actix-server/src/signals.rs item="impl Future for Signals / fn poll" ret=r props=C06 name=signals::poll
+//@spec
+    ensures
+        // the future resolves with the KIND paired with the first stream that has a delivery pending, and stays
+        // Pending when none has   [C06]
+        r is Pending <==> forall|k: int| 0 <= k < old(self).signals@.len() ==> !(#[trigger] old(self).signals@[k]).1.ready_now(),
+        r matches Poll::Ready(kind) ==> exists|k: int| 0 <= k < old(self).signals@.len() && (#[trigger] old(self).signals@[k]).1.ready_now()
+            && old(self).signals@[k].0 == kind && forall|j: int| 0 <= j < k ==> !(#[trigger] old(self).signals@[j]).1.ready_now(),
+//@loop 1
+        invariant
+            r9_n <= self.signals@.len(), self.signals@.len() == old(self).signals@.len(),
+            forall|k: int| 0 <= k < self.signals@.len() ==> (#[trigger] self.signals@[k]).0 == old(self).signals@[k].0
+                && self.signals@[k].1.ready_now() == old(self).signals@[k].1.ready_now(),
+            forall|j: int| 0 <= j < r9_n ==> !(#[trigger] old(self).signals@[j]).1.ready_now(),
+        decreases self.signals@.len() - r9_n,
+//@end
+}
 #[verifier::external_body]
 pub struct OneshotSender { _p: () }
 /// server.rs ServerCommand (its payload types are tokio channel ends: re-declared with stand-ins; variant and field
@@ -223,6 +258,22 @@ impl StreamNewService {
 //@check_struct file=actix-server/src/builder.rs name=ServerBuilder fields=threads,token,backlog,factories,sockets,mptcp,exit,listen_os_signals,cmd_tx,cmd_rx,worker_config
 #[verifier::external_body]
 pub struct Opaque { _p: () }
+/// worker.rs ServerWorkerConfig and its three setters: the contracts unit worker_handles proves of the real text
+pub struct ServerWorkerConfig { pub shutdown_timeout: Duration, pub max_blocking_threads: usize, pub max_concurrent_connections: usize }
+impl ServerWorkerConfig {
+    #[verifier::external_body]
+    pub fn max_blocking_threads(&mut self, num: usize)
+        ensures final(self).max_blocking_threads == num, final(self).max_concurrent_connections == old(self).max_concurrent_connections, final(self).shutdown_timeout == old(self).shutdown_timeout,
+    { unimplemented!() }
+    #[verifier::external_body]
+    pub fn max_concurrent_connections(&mut self, num: usize)
+        ensures final(self).max_concurrent_connections == num, final(self).max_blocking_threads == old(self).max_blocking_threads, final(self).shutdown_timeout == old(self).shutdown_timeout,
+    { unimplemented!() }
+    #[verifier::external_body]
+    pub fn shutdown_timeout(&mut self, dur: Duration)
+        ensures final(self).shutdown_timeout == dur, final(self).max_blocking_threads == old(self).max_blocking_threads, final(self).max_concurrent_connections == old(self).max_concurrent_connections,
+    { unimplemented!() }
+}
 pub struct ServerBuilder {
     pub threads: usize,
     pub token: usize,
@@ -234,7 +285,7 @@ pub struct ServerBuilder {
     pub listen_os_signals: bool,
     pub cmd_tx: Opaque,
     pub cmd_rx: Opaque,
-    pub worker_config: Opaque,
+    pub worker_config: ServerWorkerConfig,
 }
 
 impl ServerBuilder {
@@ -245,6 +296,51 @@ impl ServerBuilder {
         &&& forall|k: int| 0 <= k < self.token ==> (#[trigger] self.factories@[k]).token() == k
         &&& forall|k: int| 0 <= k < self.token ==> (#[trigger] self.sockets@[k]).0 == k
     }
+
+    /// everything a configuration setter must leave alone
+    pub open spec fn same_table(&self, o: &ServerBuilder) -> bool {
+        self.token == o.token && self.factories == o.factories && self.sockets == o.sockets
+    }
+
+//@extract file=actix-server/src/builder.rs item="impl ServerBuilder / fn workers" ret=r props=C01 name=builder::workers mut_self intended_panics
+//@spec
+    requires num != 0,      // `assert_ne!(num, 0)`: an intended panic, made the precondition
+    ensures r.threads == num, r.same_table(&self), r.worker_config == self.worker_config,
+//@end
+//@extract file=actix-server/src/builder.rs item="impl ServerBuilder / fn max_concurrent_connections" ret=r props=C02 name=builder::max_concurrent_connections mut_self
+//@spec
+    ensures
+        // the limit the user configures is the limit every worker's counter is created with   [C02]
+        r.worker_config.max_concurrent_connections == num, r.worker_config.shutdown_timeout == self.worker_config.shutdown_timeout,
+        r.same_table(&self), r.threads == self.threads,
+//@end
+//@extract file=actix-server/src/builder.rs item="impl ServerBuilder / fn maxconn" ret=r props=C02 name=builder::maxconn
+//@spec
+    ensures r.worker_config.max_concurrent_connections == num, r.same_table(&self),   // [C02] the deprecated alias does the same
+//@end
+//@extract file=actix-server/src/builder.rs item="impl ServerBuilder / fn shutdown_timeout" ret=r props=C06 name=builder::shutdown_timeout mut_self
+//@spec
+    ensures
+        r.worker_config.shutdown_timeout.ns() == sec as nat * 1_000_000_000,   // [C06] seconds, as documented
+        r.worker_config.max_concurrent_connections == self.worker_config.max_concurrent_connections, r.same_table(&self),
+//@end
+//@extract file=actix-server/src/builder.rs item="impl ServerBuilder / fn worker_max_blocking_threads" ret=r props=C02 name=builder::worker_max_blocking_threads mut_self
+//@spec
+    ensures r.worker_config.max_concurrent_connections == self.worker_config.max_concurrent_connections,
+            r.worker_config.shutdown_timeout == self.worker_config.shutdown_timeout, r.same_table(&self),
+//@end
+//@extract file=actix-server/src/builder.rs item="impl ServerBuilder / fn backlog" ret=r props=C01 name=builder::backlog mut_self
+//@spec
+    ensures r.backlog == num, r.same_table(&self), r.worker_config == self.worker_config,
+//@end
+//@extract file=actix-server/src/builder.rs item="impl ServerBuilder / fn system_exit" ret=r props=C06 name=builder::system_exit mut_self
+//@spec
+    ensures r.exit, r.same_table(&self), r.worker_config == self.worker_config, r.listen_os_signals == self.listen_os_signals,
+//@end
+//@extract file=actix-server/src/builder.rs item="impl ServerBuilder / fn disable_signals" ret=r props=C06 name=builder::disable_signals mut_self
+//@spec
+    ensures !r.listen_os_signals, r.same_table(&self), r.worker_config == self.worker_config, r.exit == self.exit,
+//@end
 
 //@extract file=actix-server/src/builder.rs item="impl ServerBuilder / fn next_token" ret=r props=C01 name=builder::next_token
 //@spec
@@ -314,6 +410,29 @@ impl<T> JoinAll<T> {
             JoinFuture::Result(o) => o is Some,
         }
     }
+
+}
+/// a future handed to join_all (`impl Future<Output = T> + Send + 'static`), and `Box::pin` of it
+#[verifier::external_body]
+#[verifier::reject_recursive_types(T)]
+pub struct UserFuture<T> { _p: core::marker::PhantomData<T> }
+pub struct Box { }
+impl Box {
+    #[verifier::external_body]
+    pub fn pin<T>(f: UserFuture<T>) -> (r: BoxFuture<'static, T>) ensures !r.done() { unimplemented!() }
+}
+//@extract file=actix-server/src/join_all.rs item="fn join_all" ret=r props=C06 name=join_all::join_all sig_replace="Vec<impl Future<Output = T> + Send + 'static>=>Vec<UserFuture<T>>"
+//@replace pattern="let mut r9_out = Vec::new();" rule=R9q
+let mut r9_out: Vec<JoinFuture<T>> = Vec::new();
+//@spec
+    ensures r.wf(), r.fut@.len() == fut@.len(),   // [C06] one pending slot per future: nothing is considered done before it is
+        forall|i: int| 0 <= i < r.fut@.len() ==> (#[trigger] r.fut@[i]) is Future,
+//@loop head="while r9_q.len() > 0"
+        invariant r9_out@.len() + r9_q@.len() == fut@.len(),
+            forall|i: int| 0 <= i < r9_out@.len() ==> (#[trigger] r9_out@[i] matches JoinFuture::Future(f) && !f.done()),
+        decreases r9_q@.len(),
+//@end
+impl<T> JoinAll<T> {
 
 #[verifier::loop_isolation(false)]
 //@extract file=actix-server/src/join_all.rs item="impl<T> Future for JoinAll<T> / fn poll" ret=r props=C06 name=join_all::poll alias_this
